@@ -383,9 +383,19 @@ class B(object):
                 choices += ['raise', 'risky']
         elif self.funcs:
             choices += ['call']
+        if self.profile == 'c01' and not getattr(self, 'rebound_builtin', False):
+            choices += ['rebuiltin']
         kind = self.pick(choices)
         m = getattr(self, 's_' + kind)
         return m(ctx, ind, depth)
+
+    def s_rebuiltin(self, ctx, ind, depth):
+        # a builtin that this body rebinds further down: until then a module or class body finds the builtin, a function
+        # body raises UnboundLocalError (the execution oracle knows which)
+        self.rebound_builtin = True
+        self.features.add('builtin-rebound-after-read')
+        b = self.pick(['max', 'sorted', 'repr'])
+        return [ind + 'use(%s)' % b, ind + '%s = %s' % (b, self.expr(ctx, 1))]
 
     def bind(self, ctx, names):
         b = ctx.setdefault('bound', [])
